@@ -1,12 +1,15 @@
 (* C19 — the in-memory cache SharedDictDataset is transparent for every access history,
    also when several processes share the cache.
    Statements only; proofs are in Proofs.v.  All theorems speak about the model of the
-   REPAIRED code (fixes/C19_clear_race.patch applied, [fixed] = true) unless they are
-   stated for both readers ([forall fixed]); the last theorem documents the reader
-   BEFORE the repair.
+   REPAIRED code (fixes/C19_clear_race.patch: [fixed] = true; fixes/C19_tensor_alias.patch:
+   [copyfix] = true, the second boolean argument of run / seq_exec) unless they are stated for
+   both ([forall fixed] / [forall copyfix]); the [_prefix_refuted] theorems document the code BEFORE
+   the respective repair.
    base : Z -> option Z is ANY wrapped dataset (None = it raises), tf/draws ANY (stateful,
-   random) post-cache transform, progs ANY number of processes with ANY programs of
-   get / dispose / len, sched ANY schedule (list of process ids, unbounded). *)
+   random) post-cache transform, working in place or not ([inplace]), the samples are transported
+   by the Manager by value or by reference ([byref]: torch tensors = shared memory), progs ANY
+   number of processes with ANY programs of get / dispose / len / in-place modification of the
+   sample last received, sched ANY schedule (list of process ids, unbounded). *)
 From Coq Require Import ZArith List Bool Arith.
 Import ListNotations.
 From KD Require Import C19.Model C19.Spec C19.Proofs.
@@ -15,74 +18,77 @@ Open Scope Z_scope.
 (* ------------------------------------------------------------- sequential histories *)
 (* Every sequential history over any number n of holders of the cached dataset produces
    exactly the specified events: every access returns transform(base[i]) with its own
-   fresh draw (or the wrapped dataset's exception), the wrapped dataset is asked exactly
+   fresh draw (or the wrapped dataset's exception) - no matter what transforms and consumers did, in
+   place, to the samples of earlier accesses -, the wrapped dataset is asked exactly
    when i was not fetched since the last clear, len is the wrapped dataset's len. *)
 Theorem seq_transparent :
-  forall fixed base blen tf draws n hist,
+  forall fixed byref inplace base blen tf draws n hist,
     pids_below n hist ->
-    log (seq_exec fixed base blen tf draws n hist) = spec_seq base blen tf draws [] (fun _ => O) hist.
+    log (seq_exec fixed true byref inplace base blen tf draws n hist) = spec_seq base blen tf draws [] (fun _ => O) hist.
 Proof. exact seq_transparent_l. Qed.
 Print Assumptions seq_transparent.
 
 Theorem seq_at_most_one_load_between_clears :
-  forall fixed base blen tf draws n hist,
+  forall fixed byref inplace base blen tf draws n hist,
     pids_below n hist ->
-    loads_once base [] (log (seq_exec fixed base blen tf draws n hist)).
+    loads_once base [] (log (seq_exec fixed true byref inplace base blen tf draws n hist)).
 Proof. exact seq_at_most_one_load_l. Qed.
 Print Assumptions seq_at_most_one_load_between_clears.
 
 (* after a clear the first access of i loads again: the access contributes exactly a load
    followed by the return of the freshly loaded, transformed sample *)
 Theorem reload_after_clear :
-  forall fixed base blen tf draws n h1 p h2 q i,
+  forall fixed byref inplace base blen tf draws n h1 p h2 q i,
     pids_below n (h1 ++ (p, CClear) :: h2 ++ [(q, CGet i)]) ->
     no_get i h2 ->
     exists k,
-      log (seq_exec fixed base blen tf draws n (h1 ++ (p, CClear) :: h2 ++ [(q, CGet i)])) =
-      log (seq_exec fixed base blen tf draws n (h1 ++ (p, CClear) :: h2))
+      log (seq_exec fixed true byref inplace base blen tf draws n (h1 ++ (p, CClear) :: h2 ++ [(q, CGet i)])) =
+      log (seq_exec fixed true byref inplace base blen tf draws n (h1 ++ (p, CClear) :: h2))
       ++ [ELoad q i; ERet q i k (expected base tf (draws q k) i)].
 Proof. exact reload_after_clear_l. Qed.
 Print Assumptions reload_after_clear.
 
 (* --------------------------------------------- any number of processes, any schedule *)
-(* invariant: dict ⊆ graph(base) *)
+(* invariant: the content of the cache ⊆ graph(base) - nothing a transform or a consumer writes ever
+   reaches a cached object.  (h0, d0) is any initial store and cache whose entries hold base's samples. *)
 Theorem conc_dict_subset_base :
-  forall fixed base blen tf draws d0 progs sched,
-    dict_ok base d0 ->
-    dict_ok base (sd (run fixed base blen tf draws sched (init d0 progs))).
+  forall fixed byref inplace base blen tf draws h0 d0 progs sched,
+    cache_init_ok base h0 d0 ->
+    let s := run fixed true byref inplace base blen tf draws sched (init h0 d0 progs) in
+    dict_ok base (dict_content (hp s) (sd s)).
 Proof. exact conc_dict_subset_base_l. Qed.
 Print Assumptions conc_dict_subset_base.
 
 (* no process ever observes a value other than transform(base[i]) (redundant loads are
-   harmless) — true of the reader before and after the repair *)
+   harmless) — true of the reader before and after the clear-race repair *)
 Theorem conc_values_equal_base :
-  forall fixed base blen tf draws d0 progs sched,
-    dict_ok base d0 ->
-    values_equal_base base tf draws (log (run fixed base blen tf draws sched (init d0 progs))).
+  forall fixed byref inplace base blen tf draws h0 d0 progs sched,
+    cache_init_ok base h0 d0 ->
+    values_equal_base base tf draws (log (run fixed true byref inplace base blen tf draws sched (init h0 d0 progs))).
 Proof. exact conc_values_equal_base_l. Qed.
 Print Assumptions conc_values_equal_base.
 
 (* the repaired reader never lets a KeyError escape, whatever the other processes do *)
 Theorem conc_no_error :
-  forall base blen tf draws d0 progs sched,
-    dict_ok base d0 ->
-    no_error (log (run true base blen tf draws sched (init d0 progs))).
+  forall byref inplace base blen tf draws h0 d0 progs sched,
+    cache_init_ok base h0 d0 ->
+    no_error (log (run true true byref inplace base blen tf draws sched (init h0 d0 progs))).
 Proof. exact conc_no_error_l. Qed.
 Print Assumptions conc_no_error.
 
 (* both together: every access of every process returns what the wrapped dataset +
    transform would have returned *)
 Theorem conc_transparent :
-  forall base blen tf draws d0 progs sched,
-    dict_ok base d0 ->
-    transparent base tf draws (log (run true base blen tf draws sched (init d0 progs))).
+  forall byref inplace base blen tf draws h0 d0 progs sched,
+    cache_init_ok base h0 d0 ->
+    transparent base tf draws (log (run true true byref inplace base blen tf draws sched (init h0 d0 progs))).
 Proof. exact conc_transparent_l. Qed.
 Print Assumptions conc_transparent.
 
 (* the transform is applied exactly once per successful access (call numbers 0,1,2,... per process) *)
 Theorem conc_transform_every_access :
-  forall fixed base blen tf draws d0 progs sched,
-    transform_every_access (log (run fixed base blen tf draws sched (init d0 progs))).
+  forall fixed copyfix byref inplace base blen tf draws h0 d0 progs sched,
+    transform_every_access (log (run fixed copyfix byref inplace base blen tf draws sched (init h0 d0 progs))).
 Proof. exact conc_transform_every_access_l. Qed.
 Print Assumptions conc_transform_every_access.
 
@@ -90,34 +96,77 @@ Print Assumptions conc_transform_every_access.
    program, whatever the other processes did in between (an access is at most membership
    test, failed lookup, load, store: the KeyError fallback cannot loop) *)
 Theorem conc_progress :
-  forall fixed base blen tf draws d0 progs sched p prog,
+  forall fixed copyfix byref inplace base blen tf draws h0 d0 progs sched p prog,
     nth_error progs p = Some prog ->
     (4 * length prog <= count_occ Nat.eq_dec sched p)%nat ->
-    exists pr, nth_error (procs (run fixed base blen tf draws sched (init d0 progs))) p = Some pr
+    exists pr, nth_error (procs (run fixed copyfix byref inplace base blen tf draws sched (init h0 d0 progs))) p = Some pr
                /\ pc pr = PStart /\ todo pr = [].
 Proof. exact conc_progress_l. Qed.
 Print Assumptions conc_progress.
 
-(* DOCUMENTATION OF THE REPAIR (reader before fixes/C19_clear_race.patch, [fixed] = false):
+(* bounded overtaking: from ANY state s (reachable or not) in which process p stands between two commands
+   with command c pending, c has returned as soon as p itself has been scheduled 4 times - however often
+   the other processes are scheduled in between and whatever they do (clear the cache, store, ...).
+   No reader can be made to wait by the others. *)
+Theorem conc_bounded_overtaking :
+  forall fixed copyfix byref inplace base blen tf draws s sched p pr c r,
+    nth_error (procs s) p = Some pr -> pc pr = PStart -> todo pr = c :: r ->
+    (4 <= count_occ Nat.eq_dec sched p)%nat ->
+    exists pr', nth_error (procs (run fixed copyfix byref inplace base blen tf draws sched s)) p = Some pr'
+                /\ (length (todo pr') <= length r)%nat.
+Proof. exact conc_bounded_overtaking_l. Qed.
+Print Assumptions conc_bounded_overtaking.
+
+(* DOCUMENTATION OF THE REPAIR fixes/C19_clear_race.patch (reader with [fixed] = false):
    membership test, concurrent dispose, lookup -> KeyError out of cached[3]. *)
 Theorem conc_no_error_prefix_refuted :
   exists (progs : list (list cmd)) (sched : list nat),
     In (ERet 0 3 1 RKeyError)
-       (log (run false (fun i => Some (10 * i)) 5 (fun d v => d + v) (fun _ _ => 0) sched (init [] progs))).
+       (log (run false true false false (fun i => Some (10 * i)) 5 (fun d v => d + v) (fun _ _ => 0) sched (init [] [] progs))).
 Proof. exact conc_no_error_prefix_refuted_l. Qed.
 Print Assumptions conc_no_error_prefix_refuted.
+
+(* DOCUMENTATION OF THE REPAIR fixes/C19_tensor_alias.patch (code with [copyfix] = false, by-reference
+   transport = torch tensors, in-place transform x -> x + 100): one process reads index 1 twice; the second
+   access returns 210 instead of 110, the history is not the specified one and the cache no longer holds
+   the wrapped dataset's sample. *)
+Theorem alias_inplace_transform_prefix_refuted :
+  let base := fun i => Some (10 * i) in
+  let tf := fun d v : Z => d + v in
+  let draws := fun (_ _ : nat) => 100 in
+  let hist := [(0, CGet 1); (0, CGet 1)]%nat in
+  let s := seq_exec true false true true base 5 tf draws 1 hist in
+  (pids_below 1 hist /\
+   log s = [ELoad 0 1; ERet 0 1 0 (RVal 110); ERet 0 1 1 (RVal 210)] /\
+   log s <> spec_seq base 5 tf draws [] (fun _ => O) hist /\
+   ~ dict_ok base (dict_content (hp s) (sd s)))%type.
+Proof. exact alias_inplace_transform_prefix_refuted_l. Qed.
+Print Assumptions alias_inplace_transform_prefix_refuted.
+
+(* same code, no transform: process 0 adds 5 in place to the sample it received, process 1 then reads 15 *)
+Theorem alias_consumer_write_prefix_refuted :
+  let base := fun i => Some (10 * i) in
+  let tf := fun d v : Z => v in
+  let draws := fun (_ _ : nat) => 0 in
+  let progs := [[CGet 1; CMut 5]; [CGet 1]] in
+  let sched := [0; 0; 0; 0; 1; 1]%nat in
+  log (run true false true true base 5 tf draws sched (init [] [] progs)) =
+  [ELoad 0 1; ERet 0 1 0 (RVal 10); EMut 0; ERet 1 1 0 (RVal 15)].
+Proof. exact alias_consumer_write_prefix_refuted_l. Qed.
+Print Assumptions alias_consumer_write_prefix_refuted.
 
 (* ------------------------------------------------------------------- non-vacuity *)
 Definition ex_base : Z -> option Z := fun i => if (0 <=? i) && (i <? 4) then Some (10 * i) else None.
 Definition ex_tf : Z -> Z -> Z := fun d v => 1000 * d + v.
 Definition ex_draws : nat -> nat -> Z := fun p k => Z.of_nat (10 * p + k).
 
-(* premises of the sequential theorems are satisfiable and the history is not trivial *)
+(* premises of the sequential theorems are satisfiable and the history is not trivial: by-reference
+   transport, in-place transform, a consumer write in between - all accesses as specified *)
 Example ex_seq :
-  pids_below 2 [(0, CGet 1); (1, CGet 1); (0, CGet 7); (1, CClear); (1, CLen); (0, CGet 1)]%nat /\
-  log (seq_exec true ex_base 4 ex_tf ex_draws 2
-         [(0, CGet 1); (1, CGet 1); (0, CGet 7); (1, CClear); (1, CLen); (0, CGet 1)]%nat) =
-  [ELoad 0 1; ERet 0 1 0 (RVal 10); ERet 1 1 0 (RVal 10010); ELoad 0 7; ERet 0 7 1 RBaseError;
+  pids_below 2 [(0, CGet 1); (0, CMut 7); (1, CGet 1); (0, CGet 7); (1, CClear); (1, CLen); (0, CGet 1)]%nat /\
+  log (seq_exec true true true true ex_base 4 ex_tf ex_draws 2
+         [(0, CGet 1); (0, CMut 7); (1, CGet 1); (0, CGet 7); (1, CClear); (1, CLen); (0, CGet 1)]%nat) =
+  [ELoad 0 1; ERet 0 1 0 (RVal 10); EMut 0; ERet 1 1 0 (RVal 10010); ELoad 0 7; ERet 0 7 1 RBaseError;
    EClear 1; ELen 1 4; ELoad 0 1; ERet 0 1 1 (RVal 1010)].
 Proof. split; [repeat constructor | vm_compute; reflexivity]. Qed.
 
@@ -127,17 +176,41 @@ Proof.
   split; [repeat constructor|]. intros p [H|[]]. inversion H.
 Qed.
 
-Example ex_dict_ok : dict_ok ex_base [(1, 10); (3, 30)].
+Example ex_cache_init_ok : cache_init_ok ex_base [30; 10] [(1, 1%nat); (3, 0%nat)].
 Proof. repeat constructor. Qed.
 
 (* "concurrent readers may load redundantly": two readers both miss and both load index 2 *)
 Example ex_redundant_load :
-  log (run true ex_base 4 ex_tf ex_draws [0; 1; 0; 1; 0; 1]%nat (init [] [[CGet 2]; [CGet 2]])) =
+  log (run true true true true ex_base 4 ex_tf ex_draws [0; 1; 0; 1; 0; 1]%nat (init [] [] [[CGet 2]; [CGet 2]])) =
   [ELoad 0 2; ELoad 1 2; ERet 0 2 0 (RVal 20); ERet 1 2 0 (RVal 10020)].
 Proof. vm_compute. reflexivity. Qed.
 
 (* the repaired reader on the schedule that broke the old one: it loads again *)
 Example ex_fixed_reader_reloads :
-  log (run true ex_base 4 ex_tf ex_draws [0; 0; 0; 0; 1; 0; 0; 0]%nat (init [] [[CGet 3; CGet 3]; [CClear]])) =
+  log (run true true false false ex_base 4 ex_tf ex_draws [0; 0; 0; 0; 1; 0; 0; 0]%nat (init [] [] [[CGet 3; CGet 3]; [CClear]])) =
   [ELoad 0 3; ERet 0 3 0 (RVal 30); EClear 1; ELoad 0 3; ERet 0 3 1 (RVal 1030)].
+Proof. vm_compute. reflexivity. Qed.
+
+(* the repaired code on the two histories that the code before fixes/C19_tensor_alias got wrong *)
+Example ex_copy_repairs_alias :
+  log (seq_exec true true true true (fun i => Some (10 * i)) 5 (fun d v => d + v) (fun _ _ => 100) 1 [(0, CGet 1); (0, CGet 1)]%nat) =
+  [ELoad 0 1; ERet 0 1 0 (RVal 110); ERet 0 1 1 (RVal 110)] /\
+  log (run true true true true (fun i => Some (10 * i)) 5 (fun d v => v) (fun _ _ => 0) [0; 0; 0; 0; 1; 1]%nat
+         (init [] [] [[CGet 1; CMut 5]; [CGet 1]])) =
+  [ELoad 0 1; ERet 0 1 0 (RVal 10); EMut 0; ERet 1 1 0 (RVal 10)].
+Proof. split; vm_compute; reflexivity. Qed.
+
+(* by-value transport (numpy arrays, lists, ...): the code before fixes/C19_tensor_alias was already
+   unaffected on these histories *)
+Example ex_by_value_was_fine :
+  log (seq_exec true false false true (fun i => Some (10 * i)) 5 (fun d v => d + v) (fun _ _ => 100) 1 [(0, CGet 1); (0, CGet 1)]%nat) =
+  [ELoad 0 1; ERet 0 1 0 (RVal 110); ERet 0 1 1 (RVal 110)].
+Proof. vm_compute; reflexivity. Qed.
+
+(* bounded overtaking is not vacuous: process 0 stands between commands, process 1 clears (twice) and stores in
+   between; after its 4th own step process 0 has its first cached[2] back *)
+Example ex_overtaking :
+  let s := run true true true true ex_base 4 ex_tf ex_draws [0; 1; 1; 0; 1; 0; 1; 1; 0]%nat
+             (init [] [] [[CGet 2; CGet 2]; [CClear; CGet 2; CClear]]) in
+  log s = [EClear 1; ELoad 0 2; ELoad 1 2; ERet 0 2 0 (RVal 20); ERet 1 2 0 (RVal 10020); EClear 1].
 Proof. vm_compute. reflexivity. Qed.
